@@ -62,6 +62,9 @@ pub struct ConfigSpec {
     /// `server.lock.host`
     #[serde(default, skip_serializing_if = "Option::is_none")]
     pub lock_host: Option<String>,
+    /// added to the lock port that is written to the file (to name a port beyond 65535)
+    #[serde(default, skip_serializing_if = "Option::is_none")]
+    pub lock_port_plus: Option<u64>,
 }
 
 impl ConfigSpec {
@@ -124,6 +127,7 @@ impl ConfigSpec {
                 sm.insert("log".into(), json!({}));
             }
             if let Some(p) = self.lock_port {
+                let p = p as u64 + self.lock_port_plus.unwrap_or(0);
                 match &self.lock_host {
                     Some(h) => sm.insert("lock".into(), json!({ "port": p, "host": h })),
                     None => sm.insert("lock".into(), json!({ "port": p })),
